@@ -102,18 +102,18 @@ def _case(phrase, cls, tag="", **x):
 def shards(tier, seed):
     out = []
     T = tier == "thorough"
-    out.append({"name": "entropy-patterns", "count": 6000 if T else 1200})
+    out.append({"name": "entropy-patterns", "count": 40000 if T else 1200})
     for n in bip39.LEGAL_COUNTS:
         # position sweep split by position groups to balance
         for grp in range(4):
-            out.append({"name": "pos-sweep-%d-%d" % (n, grp), "n": n, "grp": grp, "reps": 6 if T else 2,
+            out.append({"name": "pos-sweep-%d-%d" % (n, grp), "n": n, "grp": grp, "reps": 20 if T else 2,
                         "exhaustive": "every word x every position, %d-word phrases" % n})
     for lo in range(1, 41, 5):
-        out.append({"name": "lastword-%d" % lo, "counts": list(range(lo, min(lo + 5, 41))), "prefixes": 12 if T else 2,
+        out.append({"name": "lastword-%d" % lo, "counts": list(range(lo, min(lo + 5, 41))), "prefixes": 40 if T else 2,
                     "exhaustive": "all 2048 final words for word counts %d..%d" % (lo, min(lo + 4, 40))})
-    out.append({"name": "counts", "reps": 80 if T else 12, "exhaustive": "word counts 0..40"})
-    out.append({"name": "unknown-words", "count": 8000 if T else 1200})
-    out.append({"name": "layouts", "count": 8000 if T else 1000})
+    out.append({"name": "counts", "reps": 400 if T else 12, "exhaustive": "word counts 0..40"})
+    out.append({"name": "unknown-words", "count": 40000 if T else 1200})
+    out.append({"name": "layouts", "count": 40000 if T else 1000})
     return out
 
 
